@@ -72,6 +72,26 @@ func (lo *lockOrder) callees(ci ssa.CallInstruction) []*ssa.Function {
 	return out
 }
 
+// onceKey: for a call of (*sync.Once).Do on a struct field, the pseudo-lock that Do holds while its function runs
+// (a second Do on the same Once blocks until the first returns), and the function it runs.
+func onceKey(ci ssa.CallInstruction) (string, *ssa.Function, bool) {
+	if callName(ci) != "(*sync.Once).Do" {
+		return "", nil, false
+	}
+	cc := ci.Common()
+	k, ok := fieldKey(cc.Args[0])
+	if !ok {
+		return "", nil, false
+	}
+	var fn *ssa.Function
+	if len(cc.Args) == 2 {
+		if mc, ok := cc.Args[1].(*ssa.MakeClosure); ok {
+			fn, _ = mc.Fn.(*ssa.Function)
+		}
+	}
+	return k, fn, true
+}
+
 // mayAcquire: locks a call of f may take (transitively).
 func (lo *lockOrder) mayAcquire(f *ssa.Function) map[string]bool {
 	if a, ok := lo.acq[f]; ok {
@@ -91,6 +111,9 @@ func (lo *lockOrder) mayAcquire(f *ssa.Function) map[string]bool {
 			if k, op, ok := lockOp(c2); ok && (op == "lock" || op == "rlock") {
 				a[k] = true
 			}
+		}
+		if k, _, ok := onceKey(ci); ok {
+			a[k] = true
 		}
 		for _, cal := range lo.callees(ci) {
 			for k := range lo.mayAcquire(cal) {
@@ -112,6 +135,14 @@ func (lo *lockOrder) build() {
 			if _, isGo := in.(*ssa.Go); isGo {
 				return
 			}
+			// Once.Do(f): everything f acquires is acquired while the Once is held
+			if k, body, ok := onceKey(ci); ok && body != nil {
+				for a := range lo.mayAcquire(body) {
+					if a != k {
+						lo.Edges = append(lo.Edges, lockEdge{From: k, To: a, Fn: fn, Pos: instrPos(in)})
+					}
+				}
+			}
 			held := lo.lf.held(in)
 			if len(held) == 0 {
 				return
@@ -121,6 +152,9 @@ func (lo *lockOrder) build() {
 				if k, op, ok := lockOp(c2); ok && (op == "lock" || op == "rlock") {
 					acquired[k] = true
 				}
+			}
+			if k, _, ok := onceKey(ci); ok {
+				acquired[k] = true
 			}
 			if _, isDefer := in.(*ssa.Defer); !isDefer {
 				for _, cal := range lo.callees(ci) {
